@@ -49,7 +49,7 @@ Definition ev_ok (md : Z) (e : sev) : Prop :=
   | SlWait u => ev_res e = true /\ ev_taken e = 0 /\ u - md <= ev_lower e
   | SlTryWait u => ev_taken e = 0 /\ (ev_res e = true <-> u - md <= ev_lower e)
   | SlSignal x => ev_res e = true /\ ev_taken e = 0
-  | StaleTok => True
+  | StaleResume _ => True
   end.
 
 Definition sum_taken (lg : list sev) : Z := fold_right (fun e a => ev_taken e + a) 0 lg.
@@ -214,7 +214,7 @@ Proof.
       * destruct Hg. constructor; cbn; try assumption; lia.
       * right. eauto.
       * split; [assumption|eauto].
-    + cbn [fst snd]. split; [|now apply lwf_done]. destruct (kind t); [|assumption].
+    + cbn [fst snd]. split; [|now apply lwf_done]. destruct (kind w); [|assumption].
       destruct Hg. constructor; cbn; assumption.
   - (* Susp *)
     cbn [fst snd]. split; [destruct Hg; constructor; cbn; assumption|].
@@ -233,8 +233,7 @@ Proof.
         -- split; [apply GInv_enqueue; now apply GInv_arrive|split; assumption].
         -- split; [|apply lwf_done; split; assumption].
            apply GInv_take_log; [now apply GInv_arrive|cbn; lia|]. rewrite Hcur. cbn. split; [intros _; lia|discriminate].
-    + cbn [fst snd]. split; [|split; assumption]. destruct (kind t); [|assumption].
-      destruct Hg. constructor; cbn; assumption.
+    + cbn [fst snd]. split; [assumption|split; assumption].
   - (* SigLoop *)
     destruct (is_free g); [|split; assumption].
     destruct Hl as [H1 H2]. pose proof H2 as H2'. unfold pc_ok in H2'. rewrite Hpc in H2'.
